@@ -2,3 +2,4 @@ pub mod engine;
 pub mod model;
 pub mod props;
 pub mod util;
+pub mod fuzzglue;
